@@ -168,6 +168,19 @@ func (j *c13Judge) agree(b []byte, n int, depth int, path string) {
 	}
 	// (d) nested values the parser visited can be read again; recursion
 	switch wantT {
+	case spec.TypeStruct:
+		// the typed struct opener agrees with the parser on the size, and the body it delimits is
+		// what the header says: n = data size + size varint + type byte
+		ds, sn, err := spec.DecodeStruct(b)
+		if err != nil || sn != n {
+			j.bad("struct-opener-differs", "%s: ParseValue n=%d; DecodeStruct n=%d err=%v", path, n, sn, err)
+			return
+		}
+		hdr := 1 + sizeVarintLen(b[len(b)-2]) // the marker byte in front of the type byte gives the width (hostile inputs may use a wider varint than needed)
+		if ds < 0 || ds+hdr != n {
+			j.bad("struct-data-size-inconsistent", "%s: DecodeStruct reports data size %d and total size %d: a %d-byte body needs a %d-byte header", path, ds, n, ds, hdr)
+			return
+		}
 	case spec.TypeMessage, spec.TypeBigMessage:
 		m, mn, err := spec.ParseMessage(b)
 		om, oerr := spec.OpenMessageErr(b)
@@ -362,4 +375,17 @@ func C13(c *runner.Cfg) *report.Result {
 		}
 	}
 	return res
+}
+
+// sizeVarintLen is the width of a reverse compact varint whose last byte is m.
+func sizeVarintLen(m byte) int {
+	switch m {
+	case 0xfd:
+		return 3
+	case 0xfe:
+		return 5
+	case 0xff:
+		return 9
+	}
+	return 1
 }
